@@ -385,8 +385,9 @@ def inject(block, fault, rng):
         if not cands:
             return None
         n = rng.choice(cands)
-        replace_net(block, n, LN(n.op, (0,), n.args, n.dests))
-        return 'op_param of %s set to (0,)' % (n,)
+        stray = rng.choice([(0,), 0, (), '', False, 0.0, ('x',)])      # truthy and falsy strays alike
+        replace_net(block, n, LN(n.op, stray, n.args, n.dests))
+        return 'op_param of %s set to %r' % (n, stray)
     if fault == 'input_const_dest':
         srcs = sorted(block.wirevector_subset((pyrtl.Input, pyrtl.Const)), key=lambda w: w.name)
         d = rng.choice(srcs)
@@ -509,6 +510,21 @@ def make_foreign(insane_decoy):
     o <<= ~a
     if insane_decoy:
         pyrtl.WireVector(2, 'decoy_dangling')    # declared, never connected: sanity_check of the decoy fails
+    # the decoy is restricted to the ops it uses, in place, the way Block.legal_ops is meant to be narrowed:
+    # that is the decoy's business only
+    pyrtl.working_block().legal_ops -= set('*-+<>=xcsrm@&|^n')
+
+
+def safe_build(ctx, i, part):
+    """build(), with a failure of the construction API itself on these ordinary designs reported as a violation
+    (an exception while BUILDING a legal design is the strongest form of 'API-built design not accepted')"""
+    try:
+        return build(ctx, i)
+    except Exception as e:
+        ctx.spec_violation('api-build-raises:%s' % type(e).__name__,
+                           'the construction API raised while building legal design %s (part %s): %r' % (i, part, e),
+                           {'seed': ctx.seed, 'design': i})
+        return None
 
 
 def build(ctx, i):
@@ -539,6 +555,22 @@ def build(ctx, i):
         d.regs = sorted(d.block.wirevector_subset(pyrtl.Register), key=lambda w: w.name)
         return d
     d = gen_designs.make_design(rng, wide_prob=0.1)
+    if i % 5 == 3:
+        # the public name setter is part of building a design: wires renamed to a fresh name, renamed back,
+        # and assigned the name they already have (what output_to_firrtl does to every Const)
+        ws = sorted((w for w in d.block.wirevector_set), key=lambda w: w.name)
+        for w in rng.sample(ws, min(len(ws), rng.randint(2, 6))):
+            kind = rng.choice(['same', 'fresh', 'there-and-back'])
+            old_name = w.name
+            if isinstance(w, (pyrtl.Input, pyrtl.Output)) and kind == 'fresh':
+                kind = 'there-and-back'          # keep the interface names
+            if kind == 'same':
+                w.name = w.name
+            elif kind == 'fresh':
+                w.name = 'renamed_%s' % old_name.replace("'", '_')
+            else:
+                w.name = 'via_%s' % old_name.replace("'", '_')
+                w.name = old_name
     if i % 5 == 4:
         block = d.block
         pyrtl.reset_working_block()
@@ -563,7 +595,9 @@ def run(ctx):
                            'the kind tests of Gen/SanityNet.v do not model isinstance', {})
     # ---- (a)+(c): schedules and acceptance of API-built designs
     for i in range(ndesigns):
-        d = build(ctx, i)
+        d = safe_build(ctx, i, 'a')
+        if d is None:
+            continue
         block = d.block
         if i % 2 == 1:
             make_foreign(insane_decoy=(i % 4 == 3))
@@ -607,7 +641,13 @@ def run(ctx):
             ctx.count('nets_per_design', min(len(logic) // 10 * 10, 60))
     # ---- (e): the walk of sanity_check_memory_sync on its own, accepted and rejected index logic
     for i in range(30 if ctx.tier == 'quick' else 400):
-        d = memsync_probe(ctx, i)
+        try:
+            d = memsync_probe(ctx, i)
+        except Exception as e:
+            ctx.spec_violation('api-build-raises:%s' % type(e).__name__,
+                               'the construction API raised while building probe design %s: %r' % (i, e),
+                               {'seed': ctx.seed, 'probe': i})
+            continue
         block = d.block
         real = real_memsync(block)
         ctx.count('memsync_probe_outcome', real)
@@ -623,7 +663,9 @@ def run(ctx):
     for i in range(ndesigns):
         for fault in FAULTS:
             for site in range(sites_per_fault):
-                d = build(ctx, i)
+                d = safe_build(ctx, i, 'b')
+                if d is None:
+                    break
                 block = d.block
                 rng = ctx.sub_rng('fault', i, fault, site)
                 used_before = rng.random() < 0.5
